@@ -323,6 +323,7 @@ impl Prop for C03 {
             // be stricter than the exact rational comparison made here, never laxer
             max_time: 1 << 52,
             extra16: 7,
+            script: None,
         };
         let res = run_scenario(sc, &mut r, &mut mon, out, |r, _| {
             Some(match r.below(8) {
